@@ -60,6 +60,10 @@ var c02Buckets = []string{"aaa", "bbb"}
 
 func c02Keys() []string { return []string{"k", "k/x"} }
 
+// c02Single is set for the single-bucket backend: bucket creation/deletion
+// are not implemented there and answer NotImplemented.
+var c02Single bool
+
 func expectErr(tag string, r *Recorder, status int, code string) {
 	vsym.Assert(r.Code() == status, tag+"/status")
 	vsym.Assert(r.ErrCode() == code, tag+"/code")
@@ -74,7 +78,9 @@ func c02Step(h http.Handler, m *model, keys []string, i int) {
 	case 0: // create bucket
 		b := pickB()
 		r := Do(h, Req{Method: "PUT", Path: "/" + b})
-		if _, ok := m.buckets[b]; ok {
+		if c02Single {
+			expectErr("C02/single-create-bucket", r, 501, "NotImplemented")
+		} else if _, ok := m.buckets[b]; ok {
 			expectErr("C02/create-existing", r, 409, "BucketAlreadyExists")
 		} else {
 			vsym.Assert(r.Code() == 200, "C02/create/status")
@@ -93,6 +99,8 @@ func c02Step(h http.Handler, m *model, keys []string, i int) {
 		r := Do(h, Req{Method: "DELETE", Path: "/" + b})
 		if !m.touch(b) {
 			expectErr("C02/delete-bucket-absent", r, 404, "NoSuchBucket")
+		} else if c02Single {
+			expectErr("C02/single-delete-bucket", r, 501, "NotImplemented")
 		} else if len(m.buckets[b]) > 0 {
 			expectErr("C02/delete-bucket-nonempty", r, 409, "BucketNotEmpty")
 		} else {
@@ -224,6 +232,40 @@ func VH_C02_mem() {
 		vsym.Assert(Do(h, Req{Method: "PUT", Path: "/aaa"}).Code() == 200, "C02/seed")
 		vsym.Assert(Do(h, BodyReq("PUT", "/aaa/k", nil, []byte("s"))).Code() == 200, "C02/seed")
 		m.buckets["aaa"] = map[string][]byte{"k": []byte("s")}
+	}
+	n := vsym.Param("steps", 2)
+	for i := 0; i < n; i++ {
+		c02Step(h, m, keys, i)
+	}
+	c02Observe(h, m, keys)
+	vsym.Reach("C02/done")
+}
+
+// VH_C02: the same sequences on the backend tier selected by "backend".
+func VH_C02() {
+	kind := backendKind()
+	auto := false
+	if kind != kindFsSingle {
+		auto = vsym.Choice("autobucket", 2) == 1
+	}
+	h, _ := newServerKind(kind, gofakes3.WithAutoBucket(auto))
+	m := &model{buckets: map[string]map[string][]byte{}, auto: auto}
+	keys := c02Keys()
+	saveB, saveS := c02Buckets, c02Single
+	defer func() { c02Buckets, c02Single = saveB, saveS }()
+	switch kind {
+	case kindFsMulti:
+		keys = []string{"d/x", "d/y"} // a file and a directory of the same name cannot coexist on a file system
+	case kindFsSingle:
+		keys = []string{"d/x", "d/y"}
+		c02Buckets = []string{"bkt", "zzz"}
+		c02Single = true
+		m.buckets["bkt"] = map[string][]byte{}
+	}
+	if kind != kindFsSingle && vsym.Choice("seeded", 2) == 1 {
+		vsym.Assert(Do(h, Req{Method: "PUT", Path: "/aaa"}).Code() == 200, "C02/seed")
+		vsym.Assert(Do(h, BodyReq("PUT", "/aaa/"+keys[0], nil, []byte("s"))).Code() == 200, "C02/seed")
+		m.buckets["aaa"] = map[string][]byte{keys[0]: []byte("s")}
 	}
 	n := vsym.Param("steps", 2)
 	for i := 0; i < n; i++ {
